@@ -317,7 +317,7 @@ def check_C15(tier, replay=None):
 
 # ------------------------------------------------------------------------- C02
 
-MEMBER_DEVS = ("D08", "D09", "D10", "D11", "D12", "D13", "D14", "D23a", "D23c", "D30", "D32")
+MEMBER_DEVS = ("D08", "D09", "D10", "D11", "D12", "D13", "D14", "D23a", "D23c", "D30", "D32", "D35")
 
 
 def check_C02(tier, replay=None):
@@ -691,7 +691,7 @@ def c01_wide(R, tier="thorough"):
 
 def check_C01(tier, replay=None):
     CR_HOOKS["C01"] = lambda R: c01_wide(R, tier)
-    return check_CR("C01", tier, "schema sets of MC_CR (27 builtins required/repeated, member positions, extension near/far, restricted simple types, keyword names; WSDLs plain / with headers / one-way / three name styles / imported body element): each is generated by the real code and the emitted file is compiled as a module of a crate whose only dependencies are yaserde, yaserde_derive, xml-rs, log, reqwest and tokio; in addition the schema sets of the other bounded instances go through generator and rustc (quick: the 18 recursive sets of MC_C02; thorough: about 900 sets sampled from MC_C02 positions / nested / toplevel / homonym / recursive, MC_C08 and MC_C09), judged by Trace_C01x against Schema!ByValueCycle", CR_ASSUME)
+    return check_CR("C01", tier, known_devs=("D34",), rule= "schema sets of MC_CR (27 builtins required/repeated, member positions, extension near/far, restricted simple types, keyword names; WSDLs plain / with headers / one-way / three name styles / imported body element): each is generated by the real code and the emitted file is compiled as a module of a crate whose only dependencies are yaserde, yaserde_derive, xml-rs, log, reqwest and tokio; in addition the schema sets of the other bounded instances go through generator and rustc (quick: the 18 recursive sets of MC_C02; thorough: about 900 sets sampled from MC_C02 positions / nested / toplevel / homonym / recursive, MC_C08 and MC_C09), judged by Trace_C01x against Schema!ByValueCycle", text_assume=CR_ASSUME)
 
 
 def check_C03(tier, replay=None):
